@@ -1,6 +1,7 @@
 """C07 Lexer modes form a stack; every action on a rule takes effect."""
 import common
 import lexcommon
+from props import c07_lexgenspec
 
 LEVEL = "proof"
 
@@ -9,6 +10,7 @@ def run(r):
     r.require_theorems(1)
     r.run_witnesses()
     lexcommon.run_lex(r, "C07")
+    c07_lexgenspec.run_lexgenspec(r, "C07")
     r.assumptions += [
         "per generated specification the theorems quantify over all input strings; the space of specifications is sampled by the generator",
         "rules handed to the validator come from the harness' own AST (class expressions evaluated by the harness' own set arithmetic), tables from the file the real generator wrote",
